@@ -320,6 +320,60 @@ theorem driver_run_refines (steps : List MStep) (s : TState) (h : DynFin u s.cfg
     (steps.foldl (mdoT u) s).toM = steps.foldl (mstep u) s.toM :=
   (mdoT_run steps s h ok).1
 
+/-- **A message that passes the driver's check `stepOKb` is a legal step of the abstract cache machine, and the
+driver's state satisfies the invariant afterwards.**  `Driver/Micro.lean` evaluates `stepOKb` (the executable form
+of the side conditions `StepOK`, `EosModel/WorldMicroExec.lean`) before every message of the real code's stream.
+For a driver state with registers of the form `DynFin` (every state the driver is in) that satisfies `MInv`, and
+any message but a `reconfig`:
+* `hb : stepOKb u s st = true` — the check passed; it yields `StepOK` (`stepOKb_sound`; the converse is
+  `stepOKb_complete`);
+* `hsf : StepFin …` — the message names a configured item / effects of its type (what makes the driver's `mdoT`,
+  table step plus re-packing, equal to `mstep`: `driver_step_refines`);
+* `hsa : StaticAround …` — `StaticAt` before and after, for load / unload / start / stop / apply / unapply
+  (discharged by "no division by zero" in `driver_checked_step_legal_of_errorFree`).
+Conclusion: the side conditions hold; the driver's step is the model's; it is `Machine.Legal` as the `.change`
+to the driver's new registers removing exactly the entries the driver's table lost; the driver does nothing to
+its table but remove them; `MInv` (hence: every read returns the from-scratch value of the new registers) and
+`DynFin` hold in the driver's new state. -/
+theorem driver_checked_step_legal (T : Ties u immune limited pen keep W) (hwf : rankWF u = true)
+    (hun : UniqueAttrs u) (hR : ResistWF u) {s : TState} (hfin : DynFin u s.cfg s.dyn) (inv : MInv W s.toM)
+    {st : MStep} (hst : ∀ cfg', st ≠ .reconfig cfg') (hb : stepOKb u s st = true)
+    (hsf : StepFin u s.cfg s.dyn st) (hsa : StaticAround u W s.toM st) :
+    StepOK W s.toM st ∧
+    (mdoT u s st).toM = mstep u s.toM st ∧
+    Legal W (toState s.toM) (.change ((mdoT u s st).cfg, (mdoT u s st).dyn)
+      (removed (tblFun s.tbl) (tblFun (mdoT u s st).tbl))) ∧
+    tblFun (mdoT u s st).tbl = restrict (tblFun s.tbl) (removed (tblFun s.tbl) (tblFun (mdoT u s st).tbl)) ∧
+    MInv W (mdoT u s st).toM ∧ DynFin u (mdoT u s st).cfg (mdoT u s st).dyn := by
+  have ok := stepOKb_sound hfin hst hb W
+  obtain ⟨h1, h2⟩ := mdoT_toM hfin st hsf
+  obtain ⟨hl, hc⟩ := micro_step_legal T hwf hun hR inv st ok hsa
+  have hi := mstep_inv T ((rankWF_iff u).1 hwf) hun hR inv st ok hsa
+  unfold asChange at hl
+  rw [← h1] at hl hc hi
+  exact ⟨ok, h1, hl, hc, hi, h2⟩
+
+/-- The same with `StaticAround` discharged by non-zero divisors: no attribute calculation of the driver's state
+before and after the message ends in a division by zero (needed for load / unload / start / stop / apply /
+unapply only). -/
+theorem driver_checked_step_legal_of_errorFree (T : Ties u immune limited pen keep W) (hwf : rankWF u = true)
+    (hun : UniqueAttrs u) (hR : ResistWF u) {s : TState} (hfin : DynFin u s.cfg s.dyn) (inv : MInv W s.toM)
+    {st : MStep} (hst : ∀ cfg', st ≠ .reconfig cfg') (hb : stepOKb u s st = true)
+    (hsf : StepFin u s.cfg s.dyn st)
+    (hef : usesStatic st = true → ErrorFree u immune limited pen W s.cfg s.dyn ∧
+      ErrorFree u immune limited pen W (mdoT u s st).cfg (mdoT u s st).dyn) :
+    StepOK W s.toM st ∧
+    (mdoT u s st).toM = mstep u s.toM st ∧
+    Legal W (toState s.toM) (.change ((mdoT u s st).cfg, (mdoT u s st).dyn)
+      (removed (tblFun s.tbl) (tblFun (mdoT u s st).tbl))) ∧
+    tblFun (mdoT u s st).tbl = restrict (tblFun s.tbl) (removed (tblFun s.tbl) (tblFun (mdoT u s st).tbl)) ∧
+    MInv W (mdoT u s st).toM ∧ DynFin u (mdoT u s st).cfg (mdoT u s st).dyn := by
+  have h1 := (mdoT_toM hfin st hsf).1
+  refine driver_checked_step_legal T hwf hun hR hfin inv hst hb hsf fun hs =>
+    ⟨staticAt_of_errorFree T (hef hs).1, ?_⟩
+  rw [← h1]
+  exact staticAt_of_errorFree T (hef hs).2
+
 /-- On the configuration's items and their types' effects the re-packing changes nothing, whatever the
 registers. -/
 theorem driver_compact_id (cfg : Config) (d : Dyn) {x : Item} (hx : x ∈ cfg.items) :
@@ -697,5 +751,74 @@ example : (∃ e ∈ fleetU.effects, e.isBuff = true) ∧
     World.read (evalAll fleetU fleetCfg specImmune specLimited fleetPen) fleetShip3 37 = .ok 150 ∧
     (wrun fleetU fleetW fleetS0 fleetHist).cache (3, 37) = some 150 := by
   refine ⟨by decide, by decide +kernel, by decide +kernel, by decide +kernel⟩
+
+/-! ### Non-vacuity of `driver_checked_step_legal`: the driver on the messages of `fleetHist`
+
+The driver starts in `fleetT0` (the state `fleetS0` with an empty table) and processes the four messages of
+`fleetHist` with `mdoT`.  In each of the four states the check `stepOKb` evaluates to `true`, the message is of
+the form `StepFin`, no calculation divides by zero before or after — the theorem applies four times in a row
+(its conclusion `MInv` / `DynFin` is the next application's hypothesis), in a universe with a buff effect. -/
+
+def fleetT0 : TState := ⟨fleetCfg, fleetD0, []⟩
+abbrev fleetT1 : TState := mdoT fleetU fleetT0 (.start 2 [2000])
+abbrev fleetT2 : TState := mdoT fleetU fleetT1 (.unapply 2 2000 [])
+abbrev fleetT3 : TState := mdoT fleetU fleetT2 (.buffset 2 2000 [fleetBM])
+abbrev fleetT4 : TState := mdoT fleetU fleetT3 (.apply 2 2000 [1, 3])
+
+theorem fleet_dynFin0 : DynFin fleetU fleetCfg fleetD0 := by
+  refine ⟨fun i h => ?_, fun i e h => (by cases h), fun i e h => absurd rfl h, fun i e h => absurd rfl h⟩
+  have h' : (match item? fleetCfg i with | some x => World.loaded fleetU fleetCfg x | none => false) = true := h
+  cases hx : item? fleetCfg i with
+  | none => rw [hx] at h'; cases h'
+  | some x => exact ⟨x, item?_mem hx, item?_id hx⟩
+
+/-- The check passes in each of the four states (evaluated by the kernel). -/
+example : stepOKb fleetU fleetT0 (.start 2 [2000]) = true ∧ stepOKb fleetU fleetT1 (.unapply 2 2000 []) = true ∧
+    stepOKb fleetU fleetT2 (.buffset 2 2000 [fleetBM]) = true ∧
+    stepOKb fleetU fleetT3 (.apply 2 2000 [1, 3]) = true ∧
+    -- and it is not constantly `true`: stopping the boost while it is applied, applying it to the module, or
+    -- unloading a boosted ship are rejected in the final state
+    stepOKb fleetU fleetT4 (.stop 2 [2000]) = false ∧ stepOKb fleetU fleetT4 (.apply 2 2000 [2]) = false ∧
+    stepOKb fleetU fleetT4 (.unload 3) = false ∧ stepOKb fleetU fleetT4 (.unload 2) = false := by
+  refine ⟨by decide +kernel, by decide +kernel, by decide +kernel, by decide +kernel, by decide +kernel,
+    by decide +kernel, by decide +kernel, by decide +kernel⟩
+
+/-- The hypothesis `StepFin` is decided by `stepFinb` (`stepFinb_iff`); it evaluates to `true` on the four
+messages, and to `false` for an effect the module's type does not list. -/
+example : stepFinb fleetU fleetT0 (.start 2 [2000]) = true ∧ stepFinb fleetU fleetT1 (.unapply 2 2000 []) = true ∧
+    stepFinb fleetU fleetT2 (.buffset 2 2000 [fleetBM]) = true ∧
+    stepFinb fleetU fleetT3 (.apply 2 2000 [1, 3]) = true ∧ stepFinb fleetU fleetT0 (.start 2 [2001]) = false ∧
+    StepFin fleetU fleetT3.cfg fleetT3.dyn (.apply 2 2000 [1, 3]) :=
+  ⟨by decide +kernel, by decide +kernel, by decide +kernel, by decide +kernel, by decide +kernel,
+    (stepFinb_iff (fun _ h => by cases h)).1 (by decide +kernel)⟩
+
+example : MInv fleetW fleetT4.toM ∧ DynFin fleetU fleetT4.cfg fleetT4.dyn ∧
+    fleetT4.toM = wrun fleetU fleetW fleetS0 (fleetHist.take 4) ∧
+    fleetT4.dyn.tgts 2 2000 = [1, 3] ∧ fleetT4.dyn.bspecs 2 2000 = [fleetBM] := by
+  have T := worldGraph_ties (u := fleetU) (immune := specImmune) (limited := specLimited) (pen := fleetPen)
+    (by decide)
+  obtain ⟨hwf, hun, hR, hU, hC, hT⟩ := fleet_wf
+  have named : Named fleetU fleetCfg 2 2000 :=
+    ⟨fleetMod, List.mem_cons_of_mem _ List.mem_cons_self, rfl, by decide⟩
+  have inv0 : MInv fleetW fleetT0.toM := micro_inv_init hU hC hT
+  obtain ⟨_, e1, _, _, inv1, fin1⟩ := driver_checked_step_legal_of_errorFree T hwf hun hR
+    (s := fleetT0) fleet_dynFin0 inv0 (st := .start 2 [2000]) (fun _ h => by cases h) (by decide +kernel)
+    (fun e he => by rw [List.mem_singleton.1 he]; exact named)
+    (fun _ => ⟨by unfold ErrorFree; decide +kernel, by unfold ErrorFree; decide +kernel⟩)
+  obtain ⟨_, e2, _, _, inv2, fin2⟩ := driver_checked_step_legal_of_errorFree T hwf hun hR
+    (s := fleetT1) fin1 inv1 (st := .unapply 2 2000 []) (fun _ h => by cases h) (by decide +kernel) trivial
+    (fun _ => ⟨by unfold ErrorFree; decide +kernel, by unfold ErrorFree; decide +kernel⟩)
+  obtain ⟨_, e3, _, _, inv3, fin3⟩ := driver_checked_step_legal_of_errorFree T hwf hun hR
+    (s := fleetT2) fin2 inv2 (st := .buffset 2 2000 [fleetBM]) (fun _ h => by cases h) (by decide +kernel)
+    (fun _ => named) (fun h => by cases h)
+  obtain ⟨_, e4, _, _, inv4, fin4⟩ := driver_checked_step_legal_of_errorFree T hwf hun hR
+    (s := fleetT3) fin3 inv3 (st := .apply 2 2000 [1, 3]) (fun _ h => by cases h) (by decide +kernel)
+    (fun _ => named)
+    (fun _ => ⟨by unfold ErrorFree; decide +kernel, by unfold ErrorFree; decide +kernel⟩)
+  refine ⟨inv4, fin4, ?_, by decide +kernel, by decide +kernel⟩
+  have hw : wrun fleetU fleetW fleetS0 (fleetHist.take 4) =
+      mstep fleetU (mstep fleetU (mstep fleetU (mstep fleetU fleetT0.toM (.start 2 [2000])) (.unapply 2 2000 []))
+        (.buffset 2 2000 [fleetBM])) (.apply 2 2000 [1, 3]) := rfl
+  rw [hw, e4, e3, e2, e1]
 
 end Eos.C01World
